@@ -25,6 +25,7 @@ import (
 func main() {
 	call := flag.String("call", `simPoint(%q)`, "call template; %q receives the site name")
 	out := flag.String("out", "", "output directory")
+	simfile := flag.String("simfile", "", "DIR:PKG: also add a file to package PKG in DIR that defines SimHook and simPoint (for packages without guarded hooks)")
 	flag.Parse()
 	if *out == "" || flag.NArg() == 0 {
 		fmt.Fprintln(os.Stderr, "usage: autoyield -out DIR [-call TEMPLATE] FILE...")
@@ -62,10 +63,36 @@ func main() {
 		overlay[abs] = dst
 		fmt.Fprintf(os.Stderr, "autoyield: %s: %d yields\n", base, ins.n)
 	}
+	if *simfile != "" {
+		dir, pkg, ok := strings.Cut(*simfile, ":")
+		if !ok {
+			check(fmt.Errorf("bad -simfile %q", *simfile))
+		}
+		abs, err := filepath.Abs(dir)
+		check(err)
+		dst := filepath.Join(*out, "ay_sim_"+pkg+".go")
+		check(os.WriteFile(dst, []byte(fmt.Sprintf(simFileTemplate, pkg)), 0o644))
+		overlay[filepath.Join(abs, "zz_sim_overlay.go")] = dst
+	}
 	b, err := json.MarshalIndent(map[string]any{"Replace": overlay}, "", " ")
 	check(err)
 	fmt.Println(string(b))
 }
+
+const simFileTemplate = `// Code added through a build overlay by the verification harness; not part of
+// the repository.
+
+package %s
+
+// SimHook, when set, is called at every yield inserted by tools/autoyield.
+var SimHook func(site string)
+
+func simPoint(site string) {
+	if h := SimHook; h != nil {
+		h(site)
+	}
+}
+`
 
 func check(err error) {
 	if err != nil {
